@@ -161,12 +161,13 @@ func (w *worker) one(c *vlib.Ctx, path string, content []byte, desc map[string]a
 	}
 	if !r.panicked {
 		r2 := importSTL(path)
-		if r2.panicked && strings.HasPrefix(r2.site, "render.") {
-			c.Violation("ImportSTL|panic|"+r2.site+"|"+r2.msg, fmt.Sprintf("obj.ImportSTL panicked in the loader (%s in %s)", r2.msg, r2.site), desc)
-		} else if r2.panicked {
-			// a panic after loading (mesh -> SDF conversion of non-finite coordinates) is outside this
-			// property (the loader returned); it is counted, not reported.
-			w.outcomes.Add("import-panic-after-load:"+r2.site, 1)
+		if r2.panicked {
+			// obj.ImportSTL is the second entry point of the loader: it must return an error or a shape too
+			where := "in the loader"
+			if !strings.HasPrefix(r2.site, "render.") {
+				where = "after the loader returned"
+			}
+			c.Violation("ImportSTL|panic|"+r2.site+"|"+r2.msg, fmt.Sprintf("obj.ImportSTL panicked %s (%s in %s)", where, r2.msg, r2.site), desc)
 		}
 	}
 }
